@@ -318,5 +318,8 @@ def run(ctx, rep):
     simple_walker(ctx, rep, "C15", "traverse::walk_args", "walk_args")
     import loopstate
     loopstate.rule(ctx, rep, "C15", ['traverse'])
+    rep.rule("LX", "lexical agreement (C03 A10, re-evaluated here): the property quantifies over documents - token classes, their priorities, the keyword rule, comments and white space must be the reference ones (a changed comment / number / keyword regex silently drops or merges members)")
+    import lexical
+    lexical.rules(ctx, rep, "C15", {"trivia", "classes", "priority", "keywords", "tokenizer"})
     rep.assumptions += ["TB-1 rustc MIR", "TB-4 tabulator", "std slice iterators / for_each / try_for_each visit every element once, forward, and try_for_each stops at the first Break",
                         "one generic element per container stands for all (the closures carry no state between elements: they only capture the callback)"]
